@@ -71,8 +71,8 @@ func c08Run(c *c02Case, synth *rig.Synth, steps int, stats *c02Stats) error {
 			if p != nil {
 				return fmt.Errorf("step %d %s: %s crashed: %v (state before %+v)", k, what, cpu.Name(), p, st)
 			}
-			if mems[i].OOR > 0 {
-				return fmt.Errorf("step %d %s: %s issued a bus access at $%X, outside the 24-bit address space (state before %+v)", k, what, cpu.Name(), mems[i].OORAdr, st)
+			if f := mems[i].BusFault(); f != "" {
+				return fmt.Errorf("step %d %s: %s %s (state before %+v)", k, what, cpu.Name(), f, st)
 			}
 		}
 		if synth != nil {
